@@ -7,6 +7,7 @@ import (
 	"bufio"
 	"encoding/json"
 	"fmt"
+	"math"
 	"os"
 	"strings"
 
@@ -145,9 +146,10 @@ func buildComplete(g *Gen, gm *GMsg, item ast.ItemNode, route int) *ast.DataMess
 
 // sizeBoundaryItem returns an item whose element count straddles a length-byte boundary.
 func sizeBoundaryItem(g *Gen, big bool) *GItem {
+	// (the 65535|65536 boundary is exercised by the "big" driver, whose events are run-length summaries)
 	counts := []int{254, 255, 256, 257}
 	if big {
-		counts = []int{65534, 65535, 65536, 65537}
+		counts = []int{1023, 1024, 4095}
 	}
 	n := counts[g.pick(len(counts))]
 	f := allFormats[g.pick(len(allFormats))]
@@ -573,3 +575,117 @@ func driverCorrupt(c *Ctx) {
 }
 
 var _ = strings.Repeat
+
+// ---------------------------------------------------------------- TLC -> Go replay of MCRoundTrip cases
+
+type blItem struct {
+	C int      `json:"c"`
+	B []int    `json:"b"`
+	E []blItem `json:"e"`
+}
+
+type blCase struct {
+	Msg struct {
+		Sid  int    `json:"sid"`
+		W    int    `json:"w"`
+		S    int    `json:"s"`
+		F    int    `json:"f"`
+		Sys  []int  `json:"sys"`
+		Item blItem `json:"item"`
+	} `json:"msg"`
+	Bytes []int `json:"bytes"`
+}
+
+var codeFmt = map[int]string{0: "L", 8: "B", 9: "BOOLEAN", 16: "A", 24: "I8", 25: "I1", 26: "I2", 28: "I4",
+	32: "F8", 36: "F4", 40: "U8", 41: "U1", 42: "U2", 44: "U4"}
+
+// fromByteLevel turns a byte-level item of the specification into factory arguments.
+func fromByteLevel(it blItem) *GItem {
+	f := codeFmt[it.C]
+	g := &GItem{F: f}
+	switch f {
+	case "L":
+		for _, k := range it.E {
+			g.Kids = append(g.Kids, fromByteLevel(k))
+		}
+		return g
+	case "A":
+		g.Str = string(unJ(it.B))
+		return g
+	case "B":
+		for _, v := range it.B {
+			g.Vals = append(g.Vals, v)
+		}
+		return g
+	case "BOOLEAN":
+		for _, v := range it.B {
+			g.Vals = append(g.Vals, v != 0)
+		}
+		return g
+	}
+	w := fmtSize(f)
+	for i := 0; i+w <= len(it.B); i += w {
+		var u uint64
+		for k := 0; k < w; k++ {
+			u = u<<8 | uint64(it.B[i+k])
+		}
+		switch f[0] {
+		case 'U':
+			g.Vals = append(g.Vals, u)
+		case 'I':
+			shift := uint(64 - 8*w)
+			g.Vals = append(g.Vals, int64(u<<shift)>>shift)
+		case 'F':
+			if w == 4 {
+				g.Vals = append(g.Vals, float64(math.Float32frombits(uint32(u))))
+			} else {
+				g.Vals = append(g.Vals, math.Float64frombits(u))
+			}
+		}
+	}
+	return g
+}
+
+func init() { drivers["rt-replay"] = driverRTReplay }
+
+// rt-replay: each case of the table is built through the factories, encoded, decoded and re-encoded;
+// the event carries the message and the bytes the specification demands ("want", "expect").
+func driverRTReplay(c *Ctx) {
+	f, err := os.Open(c.In)
+	if err != nil {
+		fmt.Fprintln(os.Stderr, "harness:", err)
+		os.Exit(3)
+	}
+	defer f.Close()
+	sc := bufio.NewScanner(f)
+	sc.Buffer(make([]byte, 1<<20), 1<<26)
+	i := -1
+	for sc.Scan() {
+		i++
+		if !c.want(i) {
+			continue
+		}
+		var cs blCase
+		var raw map[string]interface{}
+		if err := json.Unmarshal(sc.Bytes(), &cs); err != nil {
+			fmt.Fprintln(os.Stderr, "harness: bad case:", err)
+			os.Exit(3)
+		}
+		json.Unmarshal(sc.Bytes(), &raw)
+		g := c.gen(i)
+		var item ast.ItemNode = ast.NewEmptyItemNode()
+		if cs.Msg.Item.C >= 0 {
+			item = fromByteLevel(cs.Msg.Item).Build()
+		}
+		gm := &GMsg{Name: "", S: cs.Msg.S, F: cs.Msg.F, W: cs.Msg.W, Dir: "H<->E", Sid: cs.Msg.Sid, Sys: unJ(cs.Msg.Sys)}
+		m := buildComplete(g, gm, item, g.pick(2))
+		ev := decodeEvent(m.ToBytes())
+		ev["ev"] = "rt"
+		ev["how"] = "replay"
+		ev["msg"] = projMsg(m)
+		ev["want"] = raw["msg"]
+		ev["expect"] = raw["bytes"]
+		c.emit(i, ev)
+		c.count("replay.cases")
+	}
+}
